@@ -27,6 +27,7 @@ type GMethod struct {
 	RetNilable  bool     // "?T" / [T, NilClass]
 	RetArrayOf  string   // "[T]" / TArray
 	RetNested   bool     // with RetArrayOf: an array of arrays, "[[T]]" / "[TArray]"
+	RetOptName  bool     // with RetNilable: the compact spelling is OptionalT, never ?T
 	BlockParams []string
 	Doc         string
 }
@@ -191,6 +192,12 @@ func genClasses(r *RNG, n int, prefix string) []*GClass {
 			u3 := dedupKeep([]string{t1, t2, Pick(r, gScalarTypes), Pick(r, gScalarTypes)})
 			c.Methods = append(c.Methods, &GMethod{Name: "un3", Params: []GParam{{Types: u3}}, Ret: []string{t1}})
 		}
+		if i == 0 {
+			// the three documented OptionalT names as return types
+			for _, t := range []string{"Float", "Int", "String"} {
+				c.Methods = append(c.Methods, &GMethod{Name: "opt_" + strings.ToLower(t), Ret: []string{t}, RetNilable: true, RetOptName: true})
+			}
+		}
 		if i <= 1 {
 			// one method declared twice, first without parameters, then with one
 			// (`x.ov0 v` without parentheses has an argument); the first two
@@ -318,7 +325,7 @@ func (m *GMethod) toJSON(nt Notation, r *RNG) map[string]any {
 		ret["type"] = "[" + m.RetArrayOf + "]"
 	case m.RetArrayOf != "":
 		ret["type"] = []string{m.RetArrayOf + "Array"}
-	case m.RetNilable && nt.Compact && (rn[0] == "Int" || rn[0] == "String" || rn[0] == "Float") && r.Bool():
+	case m.RetNilable && nt.Compact && (rn[0] == "Int" || rn[0] == "String" || rn[0] == "Float") && (m.RetOptName || r.Bool()):
 		ret["type"] = "Optional" + rn[0]
 	case m.RetNilable && nt.Compact:
 		ret["type"] = "?" + rn[0]
